@@ -396,6 +396,11 @@ class WitnessModel(Model):
                 for x in self._flat(recv):
                     total = x if total is None else super().binop(interp, 'add', total, x, node)
                 return total
+            if name == 'mean' and self._flat(recv):
+                total = None
+                for x in self._flat(recv):
+                    total = x if total is None else super().binop(interp, 'add', total, x, node)
+                return super().binop(interp, 'div', total, len(self._flat(recv)), node)
             raise AnalysisError(f'method {name} on an array of symbolic scalars at {interp.where(node)}')
         if isinstance(recv, SVar) and name in ('min', 'max', 'any', 'all') and recv.members.get('dims') == []:
             return recv
@@ -543,6 +548,22 @@ class WitnessModel(Model):
                 flat.extend(items_of(p) if items_of(p) is not None else [p])
             return self.array(interp, flat, dim, like=parts[0])
         return super().sc_concat(interp, args, kwargs, node)
+
+    def sc_cumsum(self, interp, args, kwargs, node):
+        x = args[0] if args else kwargs.get('a')
+        if isinstance(x, SVar) and items_of(x) is not None and kwargs.get('mode', 'inclusive') == 'inclusive':
+            out, acc = [], None
+            for it in items_of(x):
+                if 'concrete' in it.members and (acc is None or 'concrete' in acc.members):
+                    c = int(it.members['concrete']) + (int(acc.members['concrete']) if acc is not None else 0)
+                    acc = self.new(interp, Rat.const(c), it.unit, 'int64' if it.dtype in ('bool', 'int64', 'int32') else it.dtype)
+                    acc.members['concrete'] = c
+                    acc.members['dims'] = []
+                else:
+                    acc = it if acc is None else self.binop(interp, 'add', acc, it, node)
+                out.append(acc)
+            return self.array(interp, out, x.members['dims'][0], like=x)
+        return super().sc_cumsum(interp, args, kwargs, node)
 
     def sc_sort(self, interp, args, kwargs, node):
         a = _bind(['x', 'key', 'order'], args, kwargs, {'order': 'ascending'})
